@@ -170,16 +170,30 @@ def r4(ctx: Ctx) -> None:
 def r5(ctx: Ctx) -> None:
     f = ctx.func(GL)
     for p in normal_paths(ctx.paths(GL)):
-        env = {k: strip_ver(v) for k, v in p.env.items()}
-        chol_ids = [t for t in subterms(strip_ver(p.exit[1])) if _is_call(t, "list") and t[2] and _is_call(t[2][0], "filter") and "!=" in key(t[2][0][2][0]) and "self.volatilities" in key(t[2][0][2][0])]
-        other_ids = [t for t in subterms(strip_ver(p.exit[1])) if _is_call(t, "list") and t[2] and _is_call(t[2][0], "filter") and "==" in key(t[2][0][2][0]) and "self.volatilities" in key(t[2][0][2][0])]
-        ok = bool(chol_ids) and bool(other_ids) and all(key(t[2][0][2][1]) == "generate_target_ids" for t in chol_ids + other_ids)
-        ctx.check(ok, f, f.node, "markets are split into volatile (Cholesky) and zero-volatility ones by `volatility != 0`", "filter(vol != 0.0) / filter(vol == 0.0) over the requested ids", f"{len(chol_ids)}/{len(other_ids)} partitions found")
+        from ..terms import normalise
+
+        NV = lambda t: normalise(strip_ver(t))  # noqa: E731
+        ret_n = NV(p.exit[1])
+
+        def part(op_true: bool) -> List[Term]:
+            out = []
+            for t in subterms(ret_n):
+                if t[0] == "comp" and t[1] == "seq" and len(t[3]) == 1 and len(t[3][0][2]) == 1 and t[2] == ("bound", t[3][0][0][0]) and key(t[3][0][1]) == "generate_target_ids":
+                    from ..terms import canon_pred
+
+                    cc, pol = canon_pred(t[3][0][2][0])
+                    if cc[0] == "cmp" and cc[1] == "==" and {key(cc[2]), key(cc[3])} == {f"self.volatilities[{t[3][0][0][0]}]", "0.0"} and pol == op_true and t not in out:
+                        out.append(t)
+            return out
+
+        chol_ids, other_ids = part(False), part(True)
+        ok = len(chol_ids) == 1 and len(other_ids) == 1
+        ctx.check(ok, f, f.node, "markets are split into volatile (Cholesky) and zero-volatility ones by `volatility != 0`", "[x for x in ids if vol[x] != 0.0] / [x for x in ids if vol[x] == 0.0]", f"{len(chol_ids)}/{len(other_ids)} partitions found")
         if not ok:
             continue
         cid = chol_ids[0]
         # symmetric fill
-        lps = [l for l in loops(p) if key(strip_ver(l.iter)) == "self.correlation.items()"]
+        lps = [l for l in loops(p) if key(NV(l.iter)) == "self.correlation.items()"]
         ctx.check(len(lps) == 1, f, f.node, "one pass over the configured correlations", "for (id1, id2), corr in self.correlation.items()", str(len(lps)))
         for l in lps:
             i1, i2, cr = (("sym", f"{n}∈{l.loopid}") for n in l.target)
@@ -189,7 +203,7 @@ def r5(ctx: Ctx) -> None:
                 sts = [e for e in bp.events if e.kind == "store" and e.attr is None]
                 cells = set()
                 for e in sts:
-                    ix = strip_ver(e.index)
+                    ix = NV(e.index)
                     if ix[0] == "tuple" and len(ix[1]) == 2 and e.value == cr:
                         names = []
                         for c in ix[1]:
@@ -203,7 +217,7 @@ def r5(ctx: Ctx) -> None:
         ch = [e for e in calls(p, into_loops=False) if e.name == "cholesky"]
         ctx.check(len(ch) == 1 and dict(ch[0].kwargs).get("lower") == ("const", True), f, f.node, "lower-triangular Cholesky factor", "cholesky(cov, lower=True)", f"{len(ch)} call(s), lower={short(dict(ch[0].kwargs).get('lower')) if ch else '-'}")
         if len(ch) == 1:
-            cov = strip_ver(ch[0].args[0])
+            cov = NV(ch[0].args[0])
             facs: List[Term] = []
 
             def flat(t: Term) -> None:
@@ -217,9 +231,9 @@ def r5(ctx: Ctx) -> None:
             vol_col = [t for t in facs if _is_call(t, "reshape") and "self.volatilities" in key(t) and t[2] == (("const", -1), ("const", 1))]
             eye = [t for t in facs if _is_call(t, "eye")]
             ctx.check(len(facs) == 3 and len(vol_vec) == 1 and len(vol_col) == 1 and len(eye) == 1, f, ch[0].node, "covariance = vol (row) * corr * vol (column)", "vol * corr_matrix * vol.reshape(-1, 1)", " * ".join(short(t)[:50] for t in facs))
-            ret = strip_ver(p.exit[1])
+            ret = ret_n
             dots = _find(ret, lambda s: _is_call(s, "dot"))
-            ok = bool(dots) and all(d[2][0] == strip_ver(ch[0].term) and _is_call(d[2][1], "standard_normal") and key(d[2][1][1]).startswith("self._np_prng") for d in dots)
+            ok = bool(dots) and all(d[2][0] == NV(ch[0].term) and _is_call(d[2][1], "standard_normal") and key(d[2][1][1]).startswith("self._np_prng") for d in dots)
             ctx.check(ok, f, f.node, "the factor multiplies standard normals from the left (L @ Z), drawn from the instance generator", "np.dot(cholesky_matrix, self._np_prng.standard_normal(...))", short(dots[0])[:120] if dots else "no product")
             if dots:
                 sz = dict(dots[0][2][1][3]).get("size")
@@ -232,7 +246,7 @@ def r5(ctx: Ctx) -> None:
                     ok = _is_call(other, "reshape") and other[2] == (("const", -1), ("const", 1)) and "self.drifts" in key(other) and cid in list(subterms(other))
                 ctx.check(ok, f, f.node, "each volatile market's drift is added to its own row", "+ drifts.reshape(-1, 1)", short(adds[0])[:160] if adds else "no drift term")
         # restacking
-        ret = strip_ver(p.exit[1])
+        ret = ret_n
         ok = _is_call(ret, "stack") and ret[2] and ret[2][0][0] == "comp"
         if ok:
             comp = ret[2][0]
